@@ -1,11 +1,12 @@
 /-
 C16 — kernel-checked witnesses (`by decide`) for the typing of the atomic primitives and for `_Atomic` propagation:
-the OLD behaviour of the defects repaired in /repo (4993f7e, c3d94ea, c29052b; recorded as `fixed:` in
+the OLD behaviour of the defects repaired in /repo (4993f7e, c3d94ea, c29052b, 1c76c1e; recorded as `fixed:` in
 known_findings.json), shown on the code-generation model, the places where chibicc is more liberal than the standard
 (harmless for the property), and what lies outside the single-instruction guarantee for plain atomic accesses.
 -/
 import ChibiVerif.Model.C16Typing
 import ChibiVerif.Model.C16Qual
+import ChibiVerif.Model.C16Declr
 import ChibiVerif.Spec.C16QualSpec
 import ChibiVerif.Model.Codegen
 
@@ -122,5 +123,53 @@ theorem C16_deviation_addr_of_array :
     (match elabDecls {} ds with
      | .ok m => (exprTy m (.addr (.var "a"))).toOption.map (·.ty)
      | .error _ => none) = some (.ptr (.num .int true) false) := by decide
+
+/-! ### `_Atomic` as a qualifier of a pointer (repaired by /repo 1c76c1e) -/
+
+open ChibiVerif.C16Qual ChibiVerif.C16Declr in
+/-- parse.c `pointers` BEFORE /repo 1c76c1e: after a `*`,
+    `while (equal(tok, "const") || equal(tok, "volatile") || equal(tok, "restrict") || equal(tok, "__restrict") ||
+    equal(tok, "__restrict__")) tok = tok->next;` - `_Atomic` was not among them and ended the loop (and `pointers`) -/
+def oldQualsT : List DTok → C16Qual.Ty → C16Qual.Ty × List DTok
+  | .qual q :: ts, ty => if q = .atomic then (ty, .qual q :: ts) else oldQualsT ts ty
+  | .star :: ts, ty => oldQualsT ts (pointerTo ty)
+  | ts, ty => (ty, ts)
+
+open ChibiVerif.C16Qual ChibiVerif.C16Declr in
+def oldPointersT : List DTok → C16Qual.Ty → C16Qual.Ty × List DTok
+  | .star :: ts, ty => oldQualsT ts (pointerTo ty)
+  | ts, ty => (ty, ts)
+
+open ChibiVerif.C16Qual ChibiVerif.C16QualSpec ChibiVerif.C16Declr in
+/-- repaired by /repo 1c76c1e.  `int *_Atomic p; … p++` (valid C11, 6.7.6.1: an atomic pointer to `int`) was rejected:
+    the old `pointers` stopped in front of `_Atomic`, `declarator` found a keyword where the identifier should be and
+    `declaration` reported "variable name omitted" (the same with `const` in front: `int *const _Atomic p`).  Now the
+    qualifier loop marks the pointer type, the declarator is consumed to its end, `p` is an atomic lvalue of 8 bytes in
+    the C semantics and `p++`, `p += 1` are the compare-and-swap loop of 8 bytes, while the pointee `*p` stays plain. -/
+theorem C16_repaired_pointer_atomic_qualifier :
+    let d : Declr := .ptr .name [.atomic]
+    toks d = [.star, .qual .atomic, .ident] ∧
+    oldPointersT (toks d) (.num .int false) = (.ptr (.num .int false) false, [.qual .atomic, .ident]) ∧
+    oldPointersT (toks (.ptr .name [.const, .atomic])) (.num .int false) = (.ptr (.num .int false) false, [.qual .atomic, .ident]) ∧
+    pointersT (toks d) (.num .int false) = (.ptr (.num .int false) true, [.ident]) ∧
+    declaratorT 2 (toks d) (.num .int false) = some (.ptr (.num .int false) true, []) ∧
+    (match specDecls {} [Decl.var "p" (.prim .int) false d] with
+     | some s => [(atomicLvalue s (.var "p")).bind CType.rmwSize?, (atomicLvalue s (.deref (.var "p"))).bind CType.rmwSize?]
+     | none => []) = [some 8, none] ∧
+    (match elabDecls {} [Decl.var "p" (.prim .int) false d] with
+     | .ok m => [elabUpdate m .postInc (.var "p"), elabUpdate m .add (.var "p"), elabUpdate m .add (.deref (.var "p"))].map Except.toOption
+     | .error _ => []) = [some (.casLoop 8), some (.casLoop 8), some .plainDeref] := by decide
+
+open ChibiVerif.C16Qual ChibiVerif.C16QualSpec in
+/-- the mutant the check must catch: the qualifier loop of `pointers` WITHOUT the line `ty->is_atomic = true` (it
+    skips `_Atomic` like `const`) gives `int *_Atomic p` the plain pointer type, on which `p++` is a plain
+    load-add-store - while the C semantics (and the model of the code as it is) says atomic, 8 bytes -/
+theorem C16_pointer_qualifier_flag_matters :
+    let plain : C16Qual.Ty := applyQuals [.const] (pointerTo (.num .int false))          -- what the mutant computes for `*_Atomic`
+    let env : Env := { vars := [("p", plain)] }
+    (elabUpdate env .postInc (.var "p")).toOption = some .plainDeref ∧
+    (match elabDecls {} [Decl.var "p" (.prim .int) false (.ptr .name [.atomic])] with
+     | .ok m => (elabUpdate m .postInc (.var "p")).toOption
+     | .error _ => none) = some (.casLoop 8) := by decide
 
 end ChibiVerif.Findings.C16
